@@ -17,7 +17,7 @@ def setup():
     jax.config.update("jax_platform_name", "cpu")
 
 
-def small_system(norb=3, nocc=1, nchol=2, seed=3, restricted=True, n_walkers=8, dt=0.3):
+def small_system(norb=3, nocc=1, nchol=2, seed=3, restricted=True, n_walkers=8, dt=0.3, nocc_dn=None):
     """closed-shell random Hamiltonian, rhf (restricted walkers) or uhf (unrestricted) trial, matching propagator"""
     setup()
     import jax
@@ -35,10 +35,13 @@ def small_system(norb=3, nocc=1, nchol=2, seed=3, restricted=True, n_walkers=8, 
         wave = {"mo_coeff": jnp.array(mo[:, :nocc])}
         prop_cls = propagation.propagator_restricted
     else:
-        trial = wf.uhf(norb, (nocc, nocc))
-        wave = {"mo_coeff": [jnp.array(mo[:, :nocc]), jnp.array(mo[:, :nocc])]}
+        nd_ = nocc if nocc_dn is None else nocc_dn
+        trial = wf.uhf(norb, (nocc, nd_))
+        wave = {"mo_coeff": [jnp.array(mo[:, :nocc]), jnp.array(mo[:, :nd_])]}
         prop_cls = propagation.propagator_unrestricted
     wave["rdm1"] = jnp.array([mo[:, :nocc] @ mo[:, :nocc].T] * 2)
+    if not restricted and nocc_dn is not None:
+        wave["rdm1"] = jnp.array([mo[:, :nocc] @ mo[:, :nocc].T, mo[:, :nocc_dn] @ mo[:, :nocc_dn].T])
     ham = hamiltonian.hamiltonian(norb)
     return dict(ham=ham, ham_data=ham_data, trial=trial, wave=wave, prop_cls=prop_cls, h1=h1, norb=norb, nocc=nocc, n_walkers=n_walkers, dt=dt)
 
@@ -285,7 +288,7 @@ def phaseless_weight_deviation(restricted=True, dt=0.05, seed=7):
 def free_projection_deviation(steps=3, seed=5):
     """native replay for C05 fp.norm / fp.overlap: k real propagate_free steps (QR after each) against the SAME Trotter propagators applied without any
     re-orthonormalisation: stored overlaps must equal the overlap of the un-normalised product, and overlap(stored walkers) * norms likewise."""
-    S = small_system(norb=3, nocc=1, nchol=2, seed=seed, restricted=False, n_walkers=3, dt=0.05)
+    S = small_system(norb=3, nocc=2, nchol=2, seed=seed, restricted=False, n_walkers=3, dt=0.05, nocc_dn=1)     # open shell: the two QR factors differ
     import jax
     import jax.numpy as jnp
     trial, wave, ham = S["trial"], S["wave"], S["ham"]
